@@ -14,9 +14,13 @@ tree of fault schedules of up to L consecutive interrupted writes:
 so the crash points of every write are enumerated exhaustively and every *shape* of directory that
 crashes can leave behind is used as the start of the next interrupted write.
 
-A second sub-check (thorough tier) repeats sampled crash points on a real `python` child process
-killed by `strace -e inject=...:signal=SIGKILL:when=k` and requires the directory it leaves to be
-byte-identical with the forked model's.
+A second sub-check (thorough tier, 'syscall') repeats sampled crash points on a real, uninstrumented
+`python` child process that strace kills on entering the system call that would be operation k+1
+(`strace -f -P name -P name.old -P name.new -e inject=<syscall>:signal=SIGKILL:when=m`; strace counts
+each system call separately, so m is the ordinal of that call among the calls of its kind, taken from
+the operation trace of the forked model) and requires the directory it leaves to be byte-identical
+with the forked model's, besides satisfying the property.  It is skipped (and says so in the labels)
+when ptrace is not permitted.
 """
 import builtins
 import io
@@ -859,7 +863,7 @@ def _body_syscall(c, tmp):
 
 def subchecks(tier):
     subs = [
-        Sub("schedules", body, strategy=lambda: cases(tier), quick=32, thorough=800, pretags=pretags, shrink_s=20),
+        Sub("schedules", body, strategy=lambda: cases(tier), quick=32, thorough=480, pretags=pretags, shrink_s=20),
     ]
     if tier == "thorough":
         subs.append(Sub("syscall", body_syscall, strategy=lambda: syscall_cases(tier), quick=2, thorough=96, pretags=pretags, shrink_s=30))
